@@ -33,7 +33,7 @@ ASSUMPTIONS = [
     "models are linear: rows <=, >=, =, <, > over 1..4 float/int variables with coefficients and bounds that are small dyadic rationals (so that the exact LP is posed without rounding)",
     "no limit fires: Timeout answers are not judged",
     "strict rows are read as non-strict",
-    "the f64 simplex (known findings of C09), the fast-path optimisers and the B&B termination are NOT modelled: proof-partial; only the dispatch predicates (root_lp_gate, fast_path_gate) are Coq definitions compared with the implementation",
+    "the f64 simplex (known findings of C09), the fast-path optimisers and the B&B termination are NOT modelled: proof-partial; only the dispatch predicates (root_lp_gate, fast_path_consulted) are Coq definitions compared with the implementation; the acceptance of a fast-path candidate (FloatDispatch.fp_accepts = Model::accepts_candidate: feasible by propagation on the fixed store, optimal against the root-propagated bound) is a Coq definition read off the source with theorem fast_path_answers_are_checked, not compared case by case (the families with `fp` judge its effect: 0 infeasible or non-optimal answers)",
 ]
 RULE = ("random linear float/mixed models built around an interior point (so ~90 % feasible), 1-4 variables, 1-4 rows, three posting routes mixed per model, both directions; "
         "non-trivial = the implementation returned a point or NoSolution")
@@ -306,12 +306,10 @@ def classify(line, impl, cls):
     if why is None:
         return cls
     case = fm.Case(line)
-    # attribution, most specific first: a failing clause that is itself a constraint of a known row class; then the optimiser
-    # that answered (fast path when its gate holds and the root LP step did not run; root LP step when hook H5 says it ran);
-    # then, for NoSolution / a wrong optimum, the row classes present in the model
+    # attribution, most specific first: a failing clause that is itself a constraint of a known row class; then the root LP
+    # step when hook H5 says it ran; then, for NoSolution / a wrong optimum, the row classes present in the model.
+    # (The former class fast_path is gone: since the repair "fast-path candidates are verified" no failure is attributed to it.)
     if cs and all(c is not None for c in cs): return cs[0]
-    if fm.fast_path_applies(case) and not impl.endswith("lp=1") and not fm.fast_path_core(case):
-        return "fast_path"
     if impl.endswith("lp=1") and impl.startswith("err NoSolution"):
         # D10's only symptom: the LP vertex, fixed on every LP variable, contradicts the remaining constraints or an integer
         # domain, so a satisfiable model is reported infeasible.  A WRONG OPTIMUM or an INFEASIBLE POINT with the LP step on is
@@ -320,6 +318,8 @@ def classify(line, impl, cls):
         return "lp_root"
     rc = row_classes(case)
     if rc: return sorted(rc)[0]
+    if impl.startswith("err NoSolution") and fm.bounds_pinch_offgrid(case):
+        return "bounds_pinch_offgrid"   # constant bounds pinch a float variable to a non-empty interval without a grid point
     if impl.startswith("err NoSolution") and any(r.linear and r.rel == "eq" and any(case.is_float(v) for v in r.coeffs) for r in case.rows):
         return "float_eq_offgrid"    # equality rows over float variables whose solution set misses the step grid
     return None
@@ -331,8 +331,9 @@ def split_gate(model_line):
 def corr_dispatch(line, impl, mpart):
     """correspondence for these families = the DISPATCH: the extracted Coq predicates root_lp_gate / fast_path_consulted
     (coq/Model/FloatDispatch.v, printed by the driver as `gate=<0|1> fp=<0|1>`) against hook H5's "root LP step ran" flag.
-    When the fast path is consulted it may answer before the search is entered, so nothing is compared; otherwise the step
-    must have run exactly when the gate says so.  The python re-statement lp_gate above must agree with the Coq predicate."""
+    When the fast path is consulted it answers before the search is entered iff its candidate is accepted
+    (Model::accepts_candidate, FloatDispatch.fp_accepts), so the LP flag is not compared; otherwise the step must have run
+    exactly when the gate says so.  The python re-statement lp_gate above must agree with the Coq predicate."""
     if impl.startswith("PANIC") or impl.startswith("CRASH") or not impl or mpart is None or not mpart.startswith("gate="): return True
     gate = mpart.split()[0] == "gate=1"; fpc = mpart.split()[1] == "fp=1"
     case = fm.Case(line)
